@@ -124,7 +124,7 @@ def with_redundancy(rng, ts, ctx):
         # of the box next to one of 1024
         t = rng.choice(out)
         v0 = next(iter(t[0]))
-        out.insert(rng.randint(0, len(out)), ({v0: t[0][v0], "s": F(rng.choice([1, -1]), 2 ** 17)}, t[1] + F(rng.randint(0, 2))))
+        out.insert(rng.randint(0, len(out)), ({v0: t[0][v0], "s": F(rng.choice([1, -1]), rng.choice([2 ** 17, 2 ** 20]))}, t[1] + F(rng.randint(0, 2))))
         out.insert(rng.randint(0, len(out)), ({"t": F(1), "s": F(rng.choice([1024, -2048]))}, F(rng.randint(0, 3))))
     multi = [t for t in (ctx or []) if len(t[0]) >= 2]
     if multi and rng.random() < 0.2:
